@@ -64,6 +64,9 @@ def run(repo: Repo, tier: str) -> Report:
     # ---- 1. R-NARROW: typed IR says which stores narrow; AST says whether the value was clipped
     facts = [f for f in typed_facts(repo.root, ["gammastd_grp", "gammastd_yxt"]) if f["kernel"] in ("gammastd_grp", "gammastd_yxt")]
     narrowing: Dict[tuple, dict] = {}
+    scalar_narrow: Dict[tuple, dict] = {}
+    fptoint: Dict[tuple, dict] = {}
+    n_scalar = 0
     for f in facts:
         if not f["ok"]:
             ob("NB-TYPES", f["kernel"], f"signature {f['args']} types", False, f["error"][:200], f"{f['kernel']}{tuple(f['args'])}")
@@ -71,7 +74,45 @@ def run(repo: Repo, tier: str) -> Report:
         for s in f["setitems"]:
             if s["target_dtype"] == "int16" and s["value_dtype"] in ("float64", "float32") and s["value_type"].startswith("array"):
                 narrowing[(f["kernel"], s["line"])] = s
-    rep.floor("narrowing array stores float -> int16 (typed IR)", len(narrowing), 2)
+            elif s["target_dtype"] == "int16" and s["value_dtype"] != "int16" and not s["value_type"].startswith("array"):
+                scalar_narrow[(f["kernel"], s["line"])] = s
+        # float -> integer conversions inside the drivers: the machine conversion of +-inf / NaN / out-of-range is undefined
+        for c in f["calls"]:
+            if c["ret"].startswith(("int", "uint")) and any(a.startswith("float") for a in c["args"]) and c["callee"] in ("function:round", "function:int"):
+                fptoint[(f["kernel"], c["line"])] = c
+    for (drv, line), c in sorted(fptoint.items()):
+        k = spi.kernels[drv]
+        calls = [n for n in ast.walk(k.node) if isinstance(n, ast.Call) and n.lineno <= line <= (n.end_lineno or n.lineno)
+                 and isinstance(n.func, ast.Name) and n.func.id in ("round", "int")]
+        okc = bool(calls)
+        det = ""
+        for n in calls:
+            from ..symb import StoreCollector  # noqa
+            arg = ast.unparse(n.args[0]) if n.args else ""
+            a0 = n.args[0] if n.args else None
+            clamped = (isinstance(a0, ast.Call) and isinstance(a0.func, ast.Name) and a0.func.id in ("min", "max")
+                       and any(isinstance(x, ast.Call) and isinstance(x.func, ast.Name) and x.func.id in ("min", "max") for x in a0.args))
+            if not clamped:
+                okc = False
+                det = (f"`{ast.unparse(n)}` converts {c['args'][0]} to {c['ret']} before any range restriction: at +-inf (a CDF that rounds to 0 or 1) "
+                       f"the conversion is undefined and yields INT64_MIN on x86, so the wettest observation gets the driest index")
+        ob("R-NARROW", drv, "a float is converted to an integer only after it was restricted to a finite range", okc, det,
+           calls[0] if calls else f"{drv}: float->int conversion", line=line, kind=f"{c['ret']} <- {c['args'][0]}")
+    for (drv, line), s in sorted(scalar_narrow.items()):
+        d = spi.sc[drv]
+        st = [x for x in d.stores if x.line == line]
+        if not st:
+            raise AnalysisError(f"typed store at {FILE}:{line} not found in the syntax tree")
+        st = st[0]
+        if st.rhs.key() == nd:
+            continue      # the caller's nodata value itself (contract: representable in the output type)
+        cb = clip_bounds(st.rhs.key())
+        okc = cb is not None and cb[1] is not None and cb[2] is not None and cb[1] >= INT16[0] and cb[2] <= INT16[1]
+        n_scalar += 1
+        ob("R-NARROW", drv, "the scaled index is restricted to the int16 range before the narrowing store", okc,
+           f"`{norm_stmt(st.stmt)}` stores {s['value_type']} into {s['target_type']} " + (f"clipped to [{cb[1]}, {cb[2]}]" if cb else "without range restriction"),
+           st.stmt, line=line, kind=f"{s['target_dtype']} <- {s['value_dtype']}")
+    rep.floor("narrowing index stores -> int16 (typed IR)", len({k_ for k_, _ in narrowing}) + n_scalar, 2)
     for (drv, line), s in sorted(narrowing.items()):
         d = spi.sc[drv]
         st = [x for x in d.stores if x.line == line]
